@@ -797,6 +797,9 @@ func (t *blockTree) parseStartingMarkers(line string, newParagraph bool) (string
 		if bqMarker := blockquoteMarkerRegexp.FindString(line); bqMarker != "" {
 			line = line[len(bqMarker):]
 			containers = append(containers, container{typ: blockquote})
+			// The blockquote interrupts the paragraph, so whatever follows the
+			// marker is in a new paragraph.
+			newParagraph = true
 			continue
 		}
 
